@@ -389,6 +389,11 @@ def run(chk):
         okred &= c_ is not None and c_ >= 2
     chk.ob("R08.3", "PointJacobi.__mul__ reduces the scalar only modulo c * declared order with c >= 2 (so n * P is not trivially INFINITY for a point declaring order n) [%d reduction(s)]" % len(reds), okred,
            loc=fm.qname, key="C08|R08.3|mul-reduction", detail="__mul__ reduces the scalar modulo the declared order itself: the subgroup test n * P == INFINITY becomes vacuous for decoded points (they declare order n)")
+    # the same question semantically: __mul__ evaluated on the scalar "declared order n" of a point
+    # that declares order n (value numbering on multiples of n): no path may answer INFINITY from
+    # the scalar alone, and the scalar handed to the multiplication loops must still be n
+    from . import formulas
+    formulas.mul_by_declared_order(chk, p, "C08", "R08.3")
     # ---------------- shared known finding (C06 R06.4): the subgroup test is evaluated with an
     # identity predicate that conflates Y = 0 with the identity
     from sa.modp import ModP, identity_outcome
